@@ -400,35 +400,74 @@ theorem surv_capFilter (ops : Ops K) (hc : CapClosed ops) (cap : Int)
 
 /-! ## The pruned loop is a reduction of the un-pruned loop -/
 
-/-- Filters that keep every candidate better than a kept one (all the filters of the code are of this
-kind: capacity, thresholds, lookahead). -/
-def Filters.DownClosed (F : Filters K) : Prop :=
-  (∀ a b, cle a b = true → F.keepI b = true → F.keepI a = true) ∧
-  (∀ rest a b, cle a b = true → F.keepJ rest b = true → F.keepJ rest a = true)
+/-- `G` is an invariant of joining (e.g. "objectives are non-negative and have `n` columns"). -/
+def Closed (ops : Ops K) (G : Cand K → Prop) : Prop :=
+  ∀ a b c, G a → G b → combine ops a b = some c → G c
 
-theorem cov_joinStepF {ops : Ops K} (hr : RMono ops) {F : Filters K} (hF : F.DownClosed)
-    (rest : List (List (Cand K))) {A' A : List (Cand K)} (hA : Cov cle A' A) (T : List (Cand K)) :
+/-- Filters that, among candidates satisfying `G`, keep every candidate better than a kept one (all the
+filters of the code are of this kind: capacity, thresholds, lookahead). -/
+def Filters.DownClosedOn (G : Cand K → Prop) (F : Filters K) : Prop :=
+  (∀ a b, G a → G b → cle a b = true → F.keepI b = true → F.keepI a = true) ∧
+  (∀ rest a b, G a → G b → cle a b = true → F.keepJ rest b = true → F.keepJ rest a = true)
+
+def Filters.DownClosed (F : Filters K) : Prop := F.DownClosedOn (fun _ => True)
+
+theorem good_cross {ops : Ops K} {G : Cand K → Prop} (hG : Closed ops G) {A B : List (Cand K)}
+    (hA : ∀ x ∈ A, G x) (hB : ∀ x ∈ B, G x) : ∀ x ∈ cross ops A B, G x := by
+  intro x hx
+  obtain ⟨a, ha, b, hb, h⟩ := mem_cross.1 hx
+  exact hG a b x (hA a ha) (hB b hb) h
+
+theorem cov_joinStepF_on {ops : Ops K} (hr : RMono ops) {G : Cand K → Prop} (hG : Closed ops G)
+    {F : Filters K} (hF : F.DownClosedOn G)
+    (rest : List (List (Cand K))) {A' A : List (Cand K)} (hA : Cov cle A' A)
+    (hGA : ∀ x ∈ A, G x) (T : List (Cand K)) (hGT : ∀ x ∈ T, G x) :
     Cov cle (joinStepF ops F rest A' T)
-      ((cross ops A (T.filter F.keepI)).filter (F.keepJ rest)) :=
-  (cov_prune _).trans cle_po
-    ((cov_cross hr hA (cov_prune _)).filter _ (hF.2 rest))
+      ((cross ops A (T.filter F.keepI)).filter (F.keepJ rest)) := by
+  have hGT' : ∀ x ∈ T.filter F.keepI, G x := fun x hx => hGT x (List.mem_filter.1 hx).1
+  refine (cov_prune _).trans cle_po ((cov_cross hr hA (cov_prune _)).filter_on _ ?_)
+  intro a ha b hb
+  exact hF.2 rest a b
+    (good_cross hG (fun x hx => hGA x (hA.sub x hx))
+      (fun x hx => hGT' x (mem_prune_subset hx)) a ha)
+    (good_cross hG hGA hGT' b hb)
 
-theorem cov_pipeFold {ops : Ops K} (hr : RMono ops) {F : Filters K} (hF : F.DownClosed) :
+theorem cov_pipeFold_on {ops : Ops K} (hr : RMono ops) {G : Cand K → Prop} (hG : Closed ops G)
+    {F : Filters K} (hF : F.DownClosedOn G) :
     ∀ (Ts : List (List (Cand K))) {acc' acc : List (Cand K)}, Cov cle acc' acc →
+      (∀ x ∈ acc, G x) → (∀ T ∈ Ts, ∀ x ∈ T, G x) →
       Cov cle (pipeFold ops F acc' Ts) (survFold ops F acc Ts)
-  | [], _, _, h => h
-  | T :: Ts, _, _, h => cov_pipeFold hr hF Ts (cov_joinStepF hr hF Ts h T)
+  | [], _, _, h, _, _ => h
+  | T :: Ts, _, _, h, hGA, hGT => by
+    have hGT0 : ∀ x ∈ T, G x := hGT T (List.mem_cons_self)
+    refine cov_pipeFold_on hr hG hF Ts (cov_joinStepF_on hr hG hF Ts h hGA T hGT0) ?_
+      (fun T' hT' => hGT T' (List.mem_cons_of_mem _ hT'))
+    intro x hx
+    exact good_cross hG hGA (fun y hy => hGT0 y (List.mem_filter.1 hy).1) x
+      (List.mem_filter.1 hx).1
 
 /-- **The n-ary DP theorem, with stage filters.** Whatever down-closed filters are applied at the
 stages, the pruned loop returns a reduction of the set of surviving full combinations. -/
-theorem cov_pipe {ops : Ops K} (hr : RMono ops) {F : Filters K} (hF : F.DownClosed)
-    (tables : List (List (Cand K))) : Cov cle (pipe ops F tables) (surv ops F tables) := by
+theorem cov_pipe_on {ops : Ops K} (hr : RMono ops) {G : Cand K → Prop} (hG : Closed ops G)
+    {F : Filters K} (hF : F.DownClosedOn G)
+    (tables : List (List (Cand K))) (hGT : ∀ T ∈ tables, ∀ x ∈ T, G x) :
+    Cov cle (pipe ops F tables) (surv ops F tables) := by
   cases tables with
   | nil => exact Cov.refl cle_po _
-  | cons T Ts => exact cov_pipeFold hr hF Ts (cov_prune _)
+  | cons T Ts =>
+    have hGT0 : ∀ x ∈ T, G x := hGT T (List.mem_cons_self)
+    exact cov_pipeFold_on hr hG hF Ts (cov_prune _)
+      (fun x hx => hGT0 x (List.mem_filter.1 hx).1)
+      (fun T' hT' => hGT T' (List.mem_cons_of_mem _ hT'))
+
+theorem closed_true (ops : Ops K) : Closed ops (fun _ => True) := fun _ _ _ _ _ _ => trivial
+
+theorem cov_pipe {ops : Ops K} (hr : RMono ops) {F : Filters K} (hF : F.DownClosed)
+    (tables : List (List (Cand K))) : Cov cle (pipe ops F tables) (surv ops F tables) :=
+  cov_pipe_on hr (closed_true ops) hF tables (fun _ _ _ _ => trivial)
 
 theorem capFilter_downClosed (cap : Int) : (capFilter cap : Filters K).DownClosed :=
-  ⟨fun _ _ _ _ => rfl, fun _ a b h hb => fitsC_down cap a b h hb⟩
+  ⟨fun _ _ _ _ _ _ => rfl, fun _ a b _ _ h hb => fitsC_down cap a b h hb⟩
 
 theorem ffmFold_eq_pipeFold (ops : Ops K) (cap : Int) :
     ∀ (Ts : List (List (Cand K))) (acc : List (Cand K)),
